@@ -119,7 +119,23 @@ def finish(result, cand, dest, meta, wt, keep):
         meta = dict(meta)
         meta["verification"] = result
         meta["what_was_run"] = "tools/seeded_run.py: scratch worktree of /repo HEAD; git apply patch.diff; go build ./... && go test -count=1 ./... (must pass); demo with patch (must fail) and without (must pass); then ./check <id> %s with VERIF_REPO=<scratch worktree>" % ""
-        json.dump(meta, open(os.path.join(d, "meta.json"), "w"), indent=1)
+        # a re-run (after the checks were strengthened) keeps what earlier runs recorded: outcomes of checks
+        # not run this time, and the first-try flags
+        old_path = os.path.join(d, "meta.json")
+        if os.path.exists(old_path):
+            try:
+                old = json.load(open(old_path))
+                for k, v in old.items():
+                    if k.startswith("first_try"):
+                        meta[k] = v
+                oc = (old.get("verification") or {}).get("checks") or {}
+                nc = result.setdefault("checks", {})
+                for k, v in oc.items():
+                    nc.setdefault(k, v)
+                result["caught_by"] = sorted(c for c, v in nc.items() if v.get("exit") == 1 and v.get("violations", 0) > 0)
+            except Exception:
+                pass
+        json.dump(meta, open(old_path, "w"), indent=1)
     return 0 if result.get("confirmed") else 1
 
 if __name__ == "__main__":
